@@ -213,6 +213,8 @@ def model_pattern_class(pattern: str):
         return "a/b"
     if re.fullmatch(r"[A-Za-z0-9_.\-]+(/[A-Za-z0-9_.\-]+)*/\*", pattern):
         return "a/*"
+    if re.fullmatch(r"/[A-Za-z0-9_.\-]+(/[A-Za-z0-9_.\-]+)*", pattern):
+        return "/a"          # explicitly root-anchored name or path
     return None
 
 
